@@ -597,6 +597,30 @@ func (rule *RuleAction) checkAction(meta *ActionMetadata, exec *ExecAction, desc
 		}
 	}
 
+	// "args" and "entrypoint" in "with" section are special keys only for Docker container actions. For
+	// other kinds of actions they are ordinary inputs which must be defined by the action
+	if u := strings.ToLower(meta.Runs.Using); u != "" && u != "docker" {
+		for _, s := range []struct {
+			name string
+			val  *String
+		}{{"entrypoint", exec.Entrypoint}, {"args", exec.Args}} {
+			if _, ok := meta.Inputs[s.name]; ok || s.val == nil {
+				continue
+			}
+			ns := make([]string, 0, len(meta.Inputs))
+			for _, i := range meta.Inputs {
+				ns = append(ns, i.Name)
+			}
+			rule.Errorf(
+				s.val.Pos,
+				"input %q is not defined in action %s. available inputs are %s",
+				s.name,
+				describe(meta),
+				sortedQuotes(ns),
+			)
+		}
+	}
+
 	// Check mandatory inputs are specified. Missing inputs are reported in the order of their IDs
 	// since all the errors are reported at the same position.
 	missing := []string{}
